@@ -251,6 +251,17 @@ func (w *World) runCall(ctx context.Context, cs *CallState) {
 			run.Hops = append(run.Hops, hop)
 		}
 		r.Traceroute.Runs = append(r.Traceroute.Runs, run)
+		// further runs of the same request, each with its own destination address (a name that
+		// resolves differently per run) and the same hops
+		for _, d := range c.Addrs {
+			r2 := result.TracerouteRun{}
+			r2.Destination.IPAddress = net.IP(mustAddr(d).AsSlice())
+			for _, h := range run.Hops {
+				cp := *h
+				r2.Hops = append(r2.Hops, &cp)
+			}
+			r.Traceroute.Runs = append(r.Traceroute.Runs, r2)
+		}
 		r.EnrichWithReverseDns()
 		cs.Enriched = r
 	case "alloc_stress":
